@@ -145,7 +145,13 @@ fn gen_leaf(rng: &mut Rng) -> (ConditionGroup, Value) {
         // arithmetic comparison: "flat op literal"
         let (txt, flat) = gen_flat(rng, 2, false);
         let (ops, _) = OPS[rng.below(6)].clone();
-        let lit = if rng.chance(3, 4) { RV::Integer(rng.below(8) as i64) } else { qnum(1 + rng.below(20) as i64) };
+        // the literal: small integers of both signs (so that equality with the arithmetic result is frequent), quarters of both signs
+        let lit = match rng.below(8) {
+            0..=2 => RV::Integer(rng.below(8) as i64),
+            3..=5 => RV::Integer(rng.below(9) as i64 - 5),
+            6 => qnum(1 + rng.below(20) as i64),
+            _ => qnum(-(1 + rng.below(12) as i64)),
+        };
         let name = format!("{} {} {}", txt, ops, render_lit(&lit));
         return (ConditionGroup::single(Condition::with_test(name, vec![])), json!(["test", flat, ops, spec_of(&lit)]));
     }
